@@ -20,18 +20,25 @@ def run_one(case, clsname):
             if k == "sp":
                 ctl.nodes[op["n"]].parent = None if op["v"] is None else ctl.nodes[op["v"]]
             elif k == "sc":
-                ctl.nodes[op["n"]].children = 5 if op["xs"] is None else [ctl.nodes[x] for x in op["xs"]]
+                ctl.nodes[op["n"]].children = (5 if op["xs"] is None else
+                                               f_forest.convert([ctl.nodes[x] for x in op["xs"]], op.get("as")))
             elif k == "dc":
                 del ctl.nodes[op["n"]].children
             elif k == "ctor":
                 cs = op["cs"]
-                kids = None if cs is None else (5 if cs == "x" else [ctl.nodes[x] for x in cs])
+                kids = None if cs is None else (5 if cs == "x" else
+                                                f_forest.convert([ctl.nodes[x] for x in cs], op.get("as") if cs else None))
                 cls(parent=None if op["p"] is None else ctl.nodes[op["p"]], children=kids)
         except RecursionError:
             res = "RecursionError"
         except Exception as e:
             res = f_forest.exc_tag(e)
-        out.append({"res": res, "snap": ctl.snapshot(), "log": ctl.log})
+        rec = {"res": res, "snap": ctl.snapshot(), "log": ctl.log}
+        if case.get("observe_each") and res != "RecursionError":
+            # every read-only query after *every* call (a value computed earlier must not survive a later change)
+            ctl.begin(None)
+            rec["obs"] = observe(ctl.nodes, ctl.label, case.get("params", {}))
+        out.append(rec)
         if res == "RecursionError":
             break
     ctl.begin(None)
